@@ -671,12 +671,14 @@ func run(c *hc.Ctx) error {
 		}
 		var gp, gq *big.Int
 		got := safely(func() string {
-			p, q, err := crypto.DecomposePQ(pc.n, tapeReader{bytes.NewReader(tape)})
+			rd := bytes.NewReader(tape)
+			p, q, err := crypto.DecomposePQ(pc.n, tapeReader{rd})
 			if err != nil {
 				return "tape"
 			}
 			gp, gq = p, q
-			return fmt.Sprintf("ok %s %s", p, q)
+			// rounds = pairs of random words consumed: an observable of the path taken through the loops
+			return fmt.Sprintf("ok %s %s rounds=%d", p, q, (len(tape)-rd.Len())/16)
 		})
 		line := fmt.Sprintf("pq %s %s", pc.n, strings.Join(ws, " "))
 		if len(ws) == 0 {
@@ -690,7 +692,7 @@ func run(c *hc.Ctx) error {
 				c.Fail("pq-panic", line, got)
 			case got == "tape" && words == tapeWords:
 				c.Fail("pq-no-factor", line, fmt.Sprintf("no factor of %s found within %d outer rounds", pc.n, tapeWords/2))
-			case got != "tape" && (gp.Cmp(pc.p) != 0 || gq.Cmp(pc.q) != 0):
+			case got != "tape" && gp != nil && (gp.Cmp(pc.p) != 0 || gq.Cmp(pc.q) != 0):
 				c.Fail("pq-wrong-factors", line, fmt.Sprintf("got %s, want %s %s", got, pc.p, pc.q))
 			}
 		}
